@@ -1,6 +1,6 @@
 # C12 -- brace- and special-character-aware string primitives.
-# Model: coq/Model/BibtexStr.v; theorems: coq/Props/C12.v
-import itertools, random
+# Model: coq/Model/BibtexStr.v; spec: coq/Spec/BibtexStrSpec.v; theorems: coq/Props/C12.v
+import itertools, random, re
 from core import *
 
 ID = 'C12'
@@ -24,6 +24,29 @@ def impl_split(a):
 def impl_first_letter(a): return call_impl(_u().bibtex_first_letter, S(a[0]))
 def impl_abbreviate(a): return call_impl(_u().bibtex_abbreviate, S(a[0]), S(a[1][0]) if a[1] else None)
 
+BST = ['substring$', 'text.prefix$', 'text.length$', 'purify$', 'change.case$', 'width$', 'num.names$']
+def impl_bst(a):
+    """the same primitives as a .bst program reaches them: operands pushed in BST order on the
+    real interpreter's stack, the real builtin executed, the result popped"""
+    def run():
+        from pybtex.bibtex.interpreter import Interpreter
+        from pybtex.bibtex.builtins import builtins
+        it = Interpreter(None, None)
+        k = a[0]
+        it.push(S(a[1]))
+        if k == 0:
+            it.push(a[2]); it.push(a[3])
+        elif k == 1:
+            it.push(a[2])
+        elif k == 4:
+            it.push(S(a[4]))
+        builtins[BST[k]].execute(it)
+        r = it.pop()
+        if it.stack:
+            raise RuntimeError('builtin left %d extra values on the stack' % len(it.stack))
+        return r
+    return call_impl(run)
+
 FUNCS = {
     1: ('scan_bibtex_string', impl_scan, ('T', 'S')),
     2: ('bibtex_len', impl_len, ('T', 'S')),
@@ -33,31 +56,40 @@ FUNCS = {
     6: ('change_case', impl_change_case, ('T', 'S', 'X')),
     7: ('bibtex_width', impl_width, ('T', 'S')),
     8: ('_find_closing_brace', impl_fcb, ('T', 'S')),
-    9: ('split_tex_string', impl_split, ('T', 'S', 'X', 'B', 'B')),
+    9: ('split_tex_string', impl_split, ('T', 'S', 'X', 'X', 'X')),
     10: ('bibtex_first_letter', impl_first_letter, ('T', 'S')),
     11: ('bibtex_abbreviate', impl_abbreviate, ('T', 'S', ('O', 'S'))),
+    12: ('BST builtins substring$/text.prefix$/text.length$/purify$/change.case$/width$/num.names$', impl_bst, ('T', 'X', 'S', 'I', 'I', 'X')),
 }
 
 ALPHA = 'aB1 ~-{}\\,:'
 RULE = ('exhaustive: every string over the 11-letter alphabet {a B 1 space ~ - { } \\ , :} up to the length bound, each given to every '
-        'function (with every start/length/count in [-(n+2), n+2], every mode letter, the four separators x strip x filter_empty); '
-        'random: long strings over a wider alphabet (letters, digits, all Python whitespace, TeX punctuation), special characters, nesting to depth 105. '
+        'function (with every start/length/count in [-(n+2), n+2], every mode letter, the four separators x strip x filter_empty) and to the BST builtins; '
+        'random: long strings over a wider alphabet (letters, digits, all Python whitespace, TeX punctuation), special characters, nesting to depth 105; '
+        'malformed: token-level delete/duplicate/replace/truncate of the random strings. '
         'distinct = distinct (function, argument); non-trivial = the string contains a brace or a backslash and the call succeeded.')
-EXHAUSTIVE = {'quick': 'all strings of length <= 3 (plus a seeded 25% sample of length 4) over an 11-letter alphabet x all functions x all integer arguments in [-(n+2), n+2]',
+EXHAUSTIVE = {'quick': 'all strings of length <= 3 (plus a seeded sample of length 4) over an 11-letter alphabet x all functions x all integer arguments in [-(n+2), n+2]',
               'thorough': 'all strings of length <= 5 over an 11-letter alphabet x all functions x all integer arguments in [-(n+2), n+2]'}
-TRUSTED_BASE = ['modelled (not verified) code: pybtex/bibtex/utils.py lines 96-604 (everything except wrap, which is C19)',
+TRUSTED_BASE = ['modelled (not verified) code: pybtex/bibtex/utils.py lines 96-604 (everything except wrap, which is C19) and the seven builtins of pybtex/bibtex/builtins.py that call it',
                 'regular expressions BIBTEX_SPACE_RE, BRACE_RE, purify_special_char_re and the separators are hand-written matchers, compared with the live re objects through the functions that use them on the exhaustive stream']
 ASSUMPTIONS = ['letter/digit classes and case mapping are modelled on ASCII; non-ASCII letters are outside the claimed domain (DESIGN.md 2.2)']
-PARTIAL = []
+PARTIAL = [
+    'prefix_shape is proved for balanced strings; on a string that ends inside an unclosed special character with open inner braces the code closes one brace only (finding C12-P1, prefix_shape_refuted)',
+    'change_case_length / change_case_upto_case / change_case_idem are proved for strings that do not end inside an unclosed special character (for those the scanner emits a closing brace that is not in the input: change_case_unbalanced_example)',
+    'split_*: the re-assembly theorem is about the model of split_tex_string with strip=False; that strip/filter_empty remove only whitespace / empty pieces is checked by the oracle, not proved',
+    'bibtex_first_letter, bibtex_abbreviate, bibtex_width, _find_closing_brace are tied by the correspondence only (the property text states no law about them)',
+]
 
 def describe(fn, a):
+    if fn == 12:
+        return {'function': BST[a[0]], 'string': S(a[1]), 'args': [a[2], a[3], S(a[4])]}
     d = {'function': FUNCS[fn][0], 'string': S(a[0])}
     if len(a) > 1:
         d['args'] = a[1:]
     return d
 
 def nontrivial(fn, a, out):
-    return out[0] == 0 and any(c in (123, 125, 92) for c in a[0])
+    return out[0] == 0 and any(c in (123, 125, 92) for c in (a[1] if fn == 12 else a[0]))
 
 def cw_for(s):
     from pybtex.charwidths import charwidths
@@ -67,9 +99,257 @@ def model_arg(fn, a):
     # the charwidths table is data: regenerated from /repo on every run and passed to the model
     if fn == 7:
         return [a[0], cw_for(S(a[0]))]
+    if fn == 12:
+        return list(a[:5]) + [cw_for(S(a[1])) if a[0] == 5 else []]
     return a
 
-def cases_for(s, full=True):
+# ----------------------------------------------------------------------------------------
+# the property, in plain Python, independent of pybtex (used on the implementation's outputs)
+
+def depths(s):
+    """brace depth before every position and at the end; a closing brace without an opener does not count"""
+    d = 0; out = [0]
+    for c in s:
+        if c == '{':
+            d += 1
+        elif c == '}' and d > 0:
+            d -= 1
+        out.append(d)
+    return out
+
+def balanced(s):
+    d = 0
+    for c in s:
+        if c == '{':
+            d += 1
+        elif c == '}':
+            d -= 1
+            if d < 0:
+                return False
+    return d == 0
+
+def max_depth(s):
+    return max(depths(s))
+
+def items(s):
+    """top-level structure: ('c', i, i+1) ordinary character / stray closing brace at depth 0,
+    ('s', i, j, closed) special character s[i:j] = '{\\...}' , ('g', i, j, closed) brace group"""
+    i = 0; n = len(s); out = []
+    while i < n:
+        if s[i] == '{':
+            d = 1; j = i + 1
+            while j < n and d > 0:
+                if s[j] == '{':
+                    d += 1
+                elif s[j] == '}':
+                    d -= 1
+                j += 1
+            closed = d == 0
+            out.append(('s' if s[i + 1:i + 2] == '\\' else 'g', i, j, closed))
+            i = j
+        else:
+            out.append(('c', i, i + 1, True))
+            i += 1
+    return out
+
+def ends_in_open_special(s):
+    it = items(s)
+    return bool(it) and it[-1][0] == 's' and not it[-1][3]
+
+def spec_len(s):
+    """BibTeX text.length$: a special character counts once, braces never, everything else once"""
+    n = 0
+    for kind, i, j, closed in items(s):
+        if kind == 'c':
+            n += s[i] not in '{}'
+        elif kind == 's':
+            n += 1
+        else:
+            n += sum(1 for c in s[i:j] if c not in '{}')
+    return n
+
+def spec_substring(s, start, length):
+    """substring$ as in bibtex.web (x_substring)"""
+    n = len(s)
+    if length <= 0 or start == 0 or abs(start) > n:
+        return ''
+    if start > 0:
+        length = min(length, n - (start - 1))
+        return s[start - 1:start - 1 + length]
+    start = -start
+    length = min(length, n - (start - 1))
+    end = n - (start - 1)
+    return s[end - length:end]
+
+def one_to_one_case(s):
+    return all(len(c.lower()) == 1 and len(c.upper()) == 1 for c in s)
+
+SEP_RE = [re.compile(r'(?:\\ |\s|(?<!\\)~)+'), re.compile(','), re.compile('-'), re.compile(' [Aa][Nn][Dd] ')]
+
+def reassemble(s, pieces, sepk, filtered):
+    """unfiltered: s = p1 S1 p2 ... S(n-1) pn;  filtered (empty pieces dropped): s = S* p1 S+ p2 ... S+ pn S*;
+    every S a match of the separator pattern (in the context of s) all of whose characters are at brace depth 0"""
+    dep = depths(s)
+    pat = SEP_RE[sepk]
+    n = len(s)
+    def sep_ends(pos):
+        out = []
+        for e in range(pos + 1, n + 1):
+            if dep[e - 1] != 0 or dep[e] != 0:
+                break
+            if pat.fullmatch(s, pos, e):
+                out.append(e)
+        return out
+    memo = {}
+    if not filtered:
+        if not pieces:
+            return s == ''
+        def U(pos, k):
+            key = (pos, k)
+            if key not in memo:
+                memo[key] = False
+                p = pieces[k]
+                if s.startswith(p, pos):
+                    e = pos + len(p)
+                    if k + 1 == len(pieces):
+                        memo[key] = e == n
+                    else:
+                        memo[key] = any(U(e2, k + 1) for e2 in sep_ends(e))
+            return memo[key]
+        return U(0, 0)
+    def F(pos, k, had_sep):
+        key = (pos, k, had_sep)
+        if key not in memo:
+            memo[key] = False
+            r = any(F(e, k, True) for e in sep_ends(pos))
+            if not r:
+                if k == len(pieces):
+                    r = pos == n
+                elif had_sep and pieces[k] and s.startswith(pieces[k], pos):
+                    r = F(pos + len(pieces[k]), k + 1, False)
+            memo[key] = r
+        return memo[key]
+    return F(0, 0, True)
+
+def oracle(fn, a, out):
+    if fn == 12:
+        k = a[0]
+        if k == 4:
+            m = S(a[4])[:1].lower()
+            if m not in ('l', 'u', 't'):
+                return None if out[0] == 1 else 'change.case$ accepted mode %r' % S(a[4])
+            return oracle(6, [a[1], 'lut'.index(m)], out)
+        if k == 6:
+            if out[0] == 0:
+                so = impl_split([a[1], 3, 1, 0])
+                if so[0] == 0 and out[1] != len(so[1]):
+                    return 'num.names$ = %r but the name list splits into %d names' % (out[1], len(so[1]))
+            return crash_msg(out, S(a[1]))
+        m = {0: (4, [a[1], a[2], a[3]]), 1: (3, [a[1], a[2]]), 2: (2, [a[1]]), 3: (5, [a[1]]), 5: (7, [a[1]])}[k]
+        return oracle(m[0], m[1], out)
+    s = S(a[0])
+    m = crash_msg(out, s)
+    if m or out[0] != 0:
+        return m
+    r = out[1]
+    if fn == 1:
+        toks = [(S(t), l) for t, l in r]
+        if any(l < 0 for _, l in toks):
+            return 'negative brace level in %r' % (toks,)
+        if balanced(s):
+            if ''.join(t for t, _ in toks) != s:
+                return 'scan is not lossless on balanced %r: %r' % (s, toks)
+            dep = depths(s); pos = 0
+            for t, l in toks:
+                pos += len(t)
+                if l != dep[pos]:
+                    return 'token %r at offset %d of %r has level %d, brace depth there is %d' % (t, pos, s, l, dep[pos])
+    elif fn == 2:
+        if r != spec_len(s):
+            return 'bibtex_len(%r) = %r, text length is %d' % (s, r, spec_len(s))
+    elif fn == 3:
+        n = a[1]; p = S(r)
+        if n <= 0:
+            return None if p == '' else 'prefix of %r for n = %d <= 0 is %r, not empty' % (s, n, p)
+        if spec_len(p) != min(n, spec_len(s)):
+            return 'text length of prefix(%r, %d) = %r is %d, expected min(n, %d)' % (s, n, p, spec_len(p), spec_len(s))
+        tail = len(p) - len(p.rstrip('}'))
+        okp = False; isprefix = False
+        for k in range(0, tail + 1):
+            q = p[:len(p) - k]
+            if s.startswith(q):
+                isprefix = True
+                if depths(q)[-1] == k:
+                    okp = True
+        if not isprefix:
+            return 'prefix(%r, %d) = %r is not a prefix of the string followed by closing braces' % (s, n, p)
+        if not okp:
+            return 'prefix does not close the braces it opened: prefix(%r, %d) = %r' % (s, n, p)
+    elif fn == 4:
+        e = spec_substring(s, a[1], a[2])
+        if S(r) != e:
+            return 'substring(%r, %d, %d) = %r, BibTeX selects %r' % (s, a[1], a[2], S(r), e)
+    elif fn == 5:
+        p = S(r)
+        bad = [c for c in p if not (c.isalnum() or c == ' ')]
+        if bad:
+            return 'purify(%r) = %r contains %r' % (s, p, bad[0])
+        again = impl_purify([r])
+        if again != [0, r]:
+            return 'purify is not idempotent on %r: %r then %r' % (s, p, again)
+    elif fn == 6:
+        p = S(r)
+        if ends_in_open_special(s) or not one_to_one_case(s):
+            return None
+        if len(p) != len(s):
+            return 'change_case(%r, %s) = %r changes the length' % (s, 'lut'[a[1]], p)
+        if p.lower() != s.lower():
+            return 'change_case(%r, %s) = %r changes more than letter case' % (s, 'lut'[a[1]], p)
+        again = impl_change_case([r, a[1]])
+        if again != [0, r]:
+            return 'change_case is not idempotent on %r mode %s: %r then %r' % (s, 'lut'[a[1]], p, again)
+        dep = depths(s)
+        allowed = set()
+        for kind, i, j, closed in items(s):
+            if kind == 's':
+                inner_end = j - 1 if closed else j
+                pos = i + 1
+                for w in s[i + 1:inner_end].split(' '):
+                    if not w.startswith('\\'):
+                        allowed.update(range(pos, pos + len(w)))
+                    pos += len(w) + 1
+        for i, (x, y) in enumerate(zip(s, p)):
+            if x != y and dep[i] > 0 and i not in allowed:
+                return 'change_case(%r, %s) = %r changes %r at offset %d inside braces' % (s, 'lut'[a[1]], p, x, i)
+    elif fn == 9:
+        sepk, strip, fe = a[1], a[2], a[3]
+        pieces = [S(x) for x in r]
+        filtered = bool(fe) or sepk == 0
+        if not strip:
+            if not reassemble(s, pieces, sepk, filtered):
+                return 'split_tex_string(%r, %r, strip=False, filter_empty=%s) = %r: pieces and top-level separators do not re-assemble the string' % (s, SEPS[sepk], filtered, pieces)
+            if filtered and any(p == '' for p in pieces):
+                return 'empty piece although filter_empty: %r' % (pieces,)
+        else:
+            raw = impl_split([a[0], sepk, 0, 0 if sepk else 1])
+            if raw[0] != 0:
+                return None
+            exp = [S(x).strip() for x in raw[1]]
+            if filtered:
+                exp = [x for x in exp if x]
+            if exp != pieces:
+                return 'split_tex_string(%r, %r, strip=True, filter_empty=%s) = %r removes more than surrounding whitespace / empty pieces of %r' % (s, SEPS[sepk], filtered, pieces, [S(x) for x in raw[1]])
+    return None
+
+def crash_msg(out, s):
+    if out[0] == 2:
+        return 'raised a non-pybtex exception on %r' % (s,)
+    if out[0] == 1 and max_depth(s) <= 100:
+        return 'raised a BibTeX error on %r although braces nest only %d deep' % (s, max_depth(s))
+    return None
+
+# ----------------------------------------------------------------------------------------
+def cases_for(s, full=True, rng=None):
     n = len(s)
     yield (1, [s]); yield (2, [s]); yield (5, [s]); yield (8, [s]); yield (10, [s])
     yield (7, [s])
@@ -86,6 +366,13 @@ def cases_for(s, full=True):
             for fe in (0, 1):
                 yield (9, [s, sep, strip, fe])
     yield (11, [s, []]); yield (11, [s, ['.']]); yield (11, [s, ['']])
+    # through the BST builtins
+    for k in (-1, 0, 1, 2, n):
+        yield (12, [1, s, k, 0, ''])
+    yield (12, [0, s, 2, 1, '']); yield (12, [0, s, -2, 3, '']); yield (12, [0, s, 1, n, ''])
+    yield (12, [2, s, 0, 0, '']); yield (12, [3, s, 0, 0, '']); yield (12, [5, s, 0, 0, '']); yield (12, [6, s, 0, 0, ''])
+    for md in ('l', 'U', 't', 'Title', '', 'x'):
+        yield (12, [4, s, 0, 0, md])
 
 WIDE = 'abcXYZ019 \t\n\xa0~-{}\\,:;.!?\'"`^$&%#_@()[]=+*/|<> andAND'
 def rand_string(rng):
@@ -93,11 +380,14 @@ def rand_string(rng):
     if k < 0.15:
         d = rng.choice([3, 50, 99, 100, 101, 105])
         return '{' * d + rng.choice(['x', '\\a', '']) + '}' * rng.choice([d, d, d - 1, 0])
+    if k < 0.2:
+        d = rng.choice([97, 98, 99, 100, 101])
+        return rng.choice(['', 'a ']) + '{\\x' + '{' * d + 'y' + '}' * rng.choice([d, d + 1, 0])
     parts = []
     for _ in range(rng.randint(0, 12)):
         r = rng.random()
         if r < 0.25:
-            parts.append('{\\' + rng.choice(["'e", 'ss', 'TeX book', '"{o}', 'v S', 'i', '', 'noopsort{1973b}', 'a B']) + rng.choice(['}', '}', '']))
+            parts.append('{\\' + rng.choice(["'e", 'ss', 'TeX book', '"{o}', 'v S', 'i', '', 'noopsort{1973b}', 'a B', 'X: {Y z} \\W q']) + rng.choice(['}', '}', '']))
         elif r < 0.4:
             parts.append('{' + ''.join(rng.choice(WIDE) for _ in range(rng.randint(0, 6))) + rng.choice(['}', '}', '}', '']))
         elif r < 0.5:
@@ -106,21 +396,78 @@ def rand_string(rng):
             parts.append(''.join(rng.choice(WIDE) for _ in range(rng.randint(1, 8))))
     return ''.join(parts)
 
+def mutate(s, rng):
+    if not s:
+        return rng.choice('{}\\')
+    i = rng.randrange(len(s)); k = rng.random()
+    if k < 0.3:
+        return s[:i] + s[i + 1:]
+    if k < 0.5:
+        return s[:i] + s[i] + s[i:]
+    if k < 0.8:
+        return s[:i] + rng.choice('{}\\ ~-') + s[i + 1:]
+    return s[:i]
+
+PINNED = ['', 'abc', 'a{b}c', '{\\', '{\\}', '{\\a', '{a', '}', '}{', 'ab{\\cd', "de la Vall{\\'e}e Poussin", '\\ ', 'a\\ b', 'a\\~b', 'a~b',
+          'What a Strange{ }and Bizzare Name! and Peterson', 'Jean--Pierre', '{\\TeX\\ and databases\\Dash\\TeX DBI}', 'And Now: BOOO!!!',
+          '{\\noopsort{1973a}}{\\switchargs{--90}{1968}}', 'a{b{c', 'a}b}c', '{{\\a}}', 'x: y: {\\Z z} {Z}',
+          '{\\{', 'a{\\b{c', '{a{b}c d', '{a{b}c, d and e', '{a{b}c-d', 'a{b}c d}e f', 'The {\\TeX book \\noop}', 'And {\\Now: {BOOO}!!!}',
+          'a:  B c:\tD', 'a:B C', '{\\a B}:{\\c D} E', 'abcdef', 'ab{cd}', 'ab{\\cd}', 'level 0 {1 {\\2}}', '{\\a}{\\b}c', '{}', '{}{\\a}', 'a{\\}b',
+          'x{y} and {z and w} AND v', ' and ', 'a and ', ' and and and ', 'a,,b,{c,d},', '-a--b-{-c-}-', '~a~~b\\ c\\~d ~']
+
 def gen(tier, rng):
     maxlen = 4 if tier == 'quick' else 5
+    for s in PINNED:
+        for fn, a in cases_for(s):
+            yield ('pinned', fn, a)
     for n in range(0, maxlen + 1):
         for tup in itertools.product(ALPHA, repeat=n):
             s = ''.join(tup)
-            if tier == 'quick' and n == 4 and rng.random() > 0.25:
+            if tier == 'quick' and n == 4 and rng.random() > 0.2:
                 continue
             for fn, a in cases_for(s, full=(n <= 3 or tier != 'quick')):
                 yield ('exhaustive', fn, a)
-    for s in ['', 'abc', 'a{b}c', '{\\', '{\\}', '{\\a', '{a', '}', '}{', 'ab{\\cd', "de la Vall{\\'e}e Poussin", '\\ ', 'a\\ b', 'a\\~b', 'a~b',
-              'What a Strange{ }and Bizzare Name! and Peterson', 'Jean--Pierre', '{\\TeX\\ and databases\\Dash\\TeX DBI}', 'And Now: BOOO!!!',
-              '{\\noopsort{1973a}}{\\switchargs{--90}{1968}}', 'a{b{c', 'a}b}c', '{{\\a}}', 'x: y: {\\Z z} {Z}']:
-        for fn, a in cases_for(s):
-            yield ('pinned', fn, a)
-    for i in range(800 if tier == 'quick' else 30000):
+    for i in range(700 if tier == 'quick' else 30000):
         s = rand_string(rng)
         for fn, a in cases_for(s, full=False):
             yield ('random', fn, a)
+        if i % 2 == 0:
+            t = s
+            for _ in range(rng.randint(1, 3)):
+                t = mutate(t, rng)
+            for fn, a in cases_for(t, full=False):
+                yield ('malformed', fn, a)
+
+# ----------------------------------------------------------------------------------------
+# known findings (listed in known_findings.d/C12.json)
+def _sig_p1(kind, fn, a, detail):
+    # bibtex_prefix of a string that ends inside an unclosed special character whose inner braces are still open
+    if fn == 12 and a[0] == 1:
+        fn, a = 3, [a[1], a[2]]
+    if kind != 'oracle' or fn != 3 or not str(detail).startswith('prefix does not close the braces it opened'):
+        return False
+    s = S(a[0])
+    it = items(s)
+    if not (it and it[-1][0] == 's' and not it[-1][3]):
+        return False
+    inner = s[it[-1][1] + 1:]
+    return depths(inner)[-1] > 0 and a[1] >= spec_len(s)
+
+def _sig_s1(kind, fn, a, detail):
+    # split_tex_string on a string with a never-closed top-level brace group that contains another brace
+    if kind != 'oracle' or fn != 9 or 're-assemble' not in str(detail):
+        return False
+    s = S(a[0])
+    for kind_, i, j, closed in items(s):
+        if kind_ in ('g', 's') and not closed:
+            return any(c in '{}' for c in s[i + 1:])
+    return False
+
+KNOWN_SIGNATURES = {'C12-P1': _sig_p1, 'C12-S1': _sig_s1}
+
+def replay_known(k):
+    p = k.get('pinned')
+    if not p:
+        return None
+    fn, a = p['fn'], norm(p['arg'])
+    return oracle(fn, a, FUNCS[fn][1](a))
